@@ -138,7 +138,7 @@ def _wf_seq(base, diff, path, probs, kind):
                     probs.append("%s: non-list valuelist" % path)
         elif op == "removerange":
             ln = e["length"]
-            if not _isint(ln) or ln < 0:     # a zero-length range is a documented no-op (A[key:key+0])
+            if not _isint(ln) or ln < 1:     # (an empty range removes nothing; the TypeScript patcher rejects it on an empty list)
                 probs.append("%s: removerange length %r" % (path, ln))
                 continue
             if key + ln > n:
